@@ -374,7 +374,9 @@ MIRI_TARGETS = {
     "s390x": "s390x-unknown-linux-gnu",
     "powerpc": "powerpc-unknown-linux-gnu",
     "i686": "i686-unknown-linux-gnu",
+    "x86avx2": "x86_64-unknown-linux-gnu",
 }
+MIRI_RUSTFLAGS = {"x86avx2": "-C target-feature=+avx2"}
 
 
 def run_miri(target_key, cases, workdir, tag, shards=4, timeout=3600, no_std=False):
@@ -396,6 +398,8 @@ def run_miri(target_key, cases, workdir, tag, shards=4, timeout=3600, no_std=Fal
         write_ops([cases[i] for i in idx[k]], p)
         env = {"OPS_FILE": p, "CARGO_TARGET_DIR": os.path.join(BUILD, f"t-miri-{target_key}-{k}"),
                "MIRIFLAGS": "-Zmiri-disable-isolation"}
+        if target_key in MIRI_RUSTFLAGS:
+            env["RUSTFLAGS"] = MIRI_RUSTFLAGS[target_key]
         cmd = ["cargo", "+nightly", "miri", "run", "--offline", "-q", "--target", target]
         if no_std:
             cmd.append("--no-default-features")
